@@ -182,6 +182,42 @@ def nested_pool(rng: random.Random) -> list:
     return [u, e, big]
 
 
+def int_float_twins(rng: random.Random) -> tuple[list, list[dict]] | None:
+    """a pool [A, A'] of two expressions that compare equal and hash alike but are written with float and with int
+    constants (Constant(3.0) / Constant(3)), and a history that asks the same questions of one after the other:
+    whatever is remembered per *equal* expression hands the second the answers of the first"""
+    g = gen.Gen(rng, names=("x", "y"), floats_only=True, kinds=[k for k in gen.ALL if k != "Power"])
+    for _ in range(20):
+        a = g.expr(rng.randint(2, 3))
+        t = wire.expr(a)
+        toks = t.split(" ")
+        n = 0
+        for i, tok in enumerate(toks):
+            if i and toks[i - 1] == "C" and tok.startswith("x"):
+                v = wire.raw_num(tok)
+                if v == int(v) and abs(v) < 1000:
+                    toks[i] = str(int(v))
+                    n += 1
+        if n and a._variable_names:
+            break
+    else:
+        return None
+    b = wire.build_raw(" ".join(toks))
+    if rng.random() < 0.5:
+        a, b = b, a
+    pool = [a, b]
+    x = sorted(a._variable_names)[0]
+    P = wire.point(g.point(sorted(a._variable_names)))
+    ops = []
+    for i in (0, 1):
+        ops += [{"op": "normalize", "i": i, "p": P, "x": x}, {"op": "partial_early", "i": i, "p": P, "x": x},
+                {"op": "pobj_new", "i": i, "j": i, "p": P, "x": x, "kind": "PE"}, {"op": "pobj_expr", "i": i, "j": i, "p": P, "x": x},
+                {"op": "diff_early_at", "i": i, "p": P, "x": x}]
+    ops += [{"op": "pobj_new", "i": 1, "j": 2, "p": P, "x": x, "kind": "FE"}, {"op": "pobj_expr", "i": 1, "j": 2, "p": P, "x": x},
+            {"op": "pobj_new", "i": 0, "j": 3, "p": P, "x": x, "kind": "FE"}, {"op": "pobj_expr", "i": 0, "j": 3, "p": P, "x": x}]
+    return pool, ops
+
+
 def sharing_prefixes(rng: random.Random, pool: list) -> list[list[dict]]:
     """a derivative object of one member is asked at the caller's own Point object, a *different* member sharing nodes
     with it is used at another point through some entry point, and the object is asked again at the identical Point"""
